@@ -1963,7 +1963,17 @@ class Manager(utils.EventEmitter):
             return
 
         # Look for a session with this connection, and create one if none exists
-        if not (session := self.sessions.get(connection.handle)):
+        session = self.sessions.get(connection.handle)
+        if (
+            session is not None
+            and session.completed
+            and command.code == CommandCode.PAIRING_REQUEST
+        ):
+            # The previous pairing on this connection is over (success or failure):
+            # a new request starts a new session
+            session.on_disconnection(0)
+            session = None
+        if session is None:
             if connection.role == Role.CENTRAL:
                 logger.warning('Remote starts pairing as Peripheral!')
             pairing_config = self.pairing_config_factory(connection)
